@@ -106,9 +106,41 @@ func appendChain(p *pwPath, v ssa.Value) ([]ssa.Value, []*ssa.Call, bool) {
 func ssaTypeOfValue(p *pwPath, t, v ssa.Value) bool {
 	t, v = p.resolve(t), p.resolve(v)
 	if recv, _, ok := reflectValueCall(t, "Type"); ok {
-		return p.resolve(recv) == v
+		if p.resolve(recv) == v {
+			return true
+		}
+	}
+	// both are about one static Go type: reflect.TypeOf(T{}) kept in a package variable, and
+	// reflect.ValueOf of a value whose static type is T
+	if st := staticRType(p, t); st != nil {
+		if va, ok := reflectFunc(v, "ValueOf"); ok && len(va) == 1 {
+			if mi, ok := p.resolve(va[0]).(*ssa.MakeInterface); ok && !types.IsInterface(mi.X.Type()) && types.Identical(mi.X.Type(), st) {
+				return true
+			}
+		}
 	}
 	return false
+}
+
+// staticRType: the reflect.Type value t describes a type that is known statically: reflect.TypeOf(x)
+// or reflect.ValueOf(x).Type() with x of a concrete static type. Returns that type, or nil.
+func staticRType(p *pwPath, t ssa.Value) types.Type {
+	t = p.resolve(t)
+	var operand ssa.Value
+	if a, ok := reflectFunc(t, "TypeOf"); ok && len(a) == 1 {
+		operand = a[0]
+	} else if recv, _, ok := reflectValueCall(t, "Type"); ok {
+		if a, ok := reflectFunc(p.resolve(recv), "ValueOf"); ok && len(a) == 1 {
+			operand = a[0]
+		}
+	}
+	if operand == nil {
+		return nil
+	}
+	if mi, ok := p.resolve(operand).(*ssa.MakeInterface); ok && !types.IsInterface(mi.X.Type()) {
+		return mi.X.Type()
+	}
+	return nil
 }
 
 func typeInvoke(p *pwPath, v ssa.Value, name string) (recv ssa.Value, args []ssa.Value, ok bool) {
@@ -168,6 +200,10 @@ func (cm *callModel) justify(p *pwPath, val ssa.Value, app *ssa.Call) (how strin
 				y, _, ok2 := reflectValueCall(p.resolve(na[0]), "Type")
 				if ok1 && ok2 && p.resolve(x) == p.resolve(y) {
 					return "a pointer to the value, found assignable to the parameter type", args[0]
+				}
+				// ... or from one static type
+				if t1, t2 := staticRType(p, pa[0]), staticRType(p, na[0]); t1 != nil && t2 != nil && types.Identical(t1, t2) {
+					return "a pointer to a value of the type whose pointer type was found assignable to the parameter type", args[0]
 				}
 			}
 		}
